@@ -156,9 +156,9 @@ static void run_case(Rng& r, Ctx& c)
     grid.rankToIndice((int)rk, idx);
     bool inb = true;
     for (int k = 0; k < nd; k++) inb = inb && idx[k] >= 0 && idx[k] < g.nx[k];
-    c.truth("rank-idx-bounds", "C16:rankToIndice:out-of-bounds:" + cls, inb, fmt("rank %ld -> %s %s", rk, vstr(idx).c_str(), gdet.c_str()));
+    c.truth("rank-idx-bounds", "C16:rankToIndice:out-of-bounds", inb, fmt("rank %ld -> %s %s", rk, vstr(idx).c_str(), gdet.c_str()));
     int back = inb ? grid.indiceToRank(idx) : -99;
-    c.truth("rank-idx-rank", "C16:rank-idx-rank:" + cls, back == rk, fmt("rank %ld -> %s -> %d %s", rk, vstr(idx).c_str(), back, gdet.c_str()));
+    c.truth("rank-idx-rank", "C16:rank-idx-rank", back == rk, fmt("rank %ld -> %s -> %d %s", rk, vstr(idx).c_str(), back, gdet.c_str()));
 
     // indices -> rank -> indices (index tuples enumerated by the reference)
     std::vector<int> tup = refg::tuple(g, rk);
@@ -168,7 +168,7 @@ static void run_case(Rng& r, Ctx& c)
     if (rin) seen[rt] = 1;
     std::vector<int> tb(nd, -7);
     if (rin) grid.rankToIndice(rt, tb);
-    c.truth("idx-rank-idx", "C16:idx-rank-idx:" + cls, rin && fresh && tb == tup,
+    c.truth("idx-rank-idx", "C16:idx-rank-idx", rin && fresh && tb == tup,
             fmt("indices %s -> rank %d -> %s %s", vstr(tup).c_str(), rt, vstr(tb).c_str(), gdet.c_str()));
     if (!inb) continue;
 
@@ -176,7 +176,7 @@ static void run_case(Rng& r, Ctx& c)
     std::vector<LD> want = refg::coordI(g, idx);
     VectorDouble coor    = grid.indicesToCoordinate(VI(idx));
     double e             = maxdiff(coor, want);
-    c.check("node-geometry", "C16:node-geometry:indicesToCoordinate:" + cls, e <= ctol, e, ctol,
+    c.check("node-geometry", "C16:node-geometry:indicesToCoordinate", e <= ctol, e, ctol,
             fmt("indices %s %s", vstr(idx).c_str(), gdet.c_str()));
     // the other accessors must report the same node
     {
@@ -191,13 +191,13 @@ static void run_case(Rng& r, Ctx& c)
       }
       double e2 = std::max(std::max(maxdiff(c2, want), maxdiff(c3, want)),
                            std::max(maxdiff(c4, want), std::max(maxdiff(c5, want), maxdiff(c6, want))));
-      c.check("node-accessors", "C16:node-geometry:accessors:" + cls, e2 <= ctol, e2, ctol,
+      c.check("node-accessors", "C16:node-geometry:accessors", e2 <= ctol, e2, ctol,
               fmt("rank %ld %s", rk, gdet.c_str()));
       // unrotated coordinates: "flag_rotate FALSE: skip rotation" -> x0 + i*dx
       VectorDouble c7 = grid.getCoordinatesByRank((int)rk, false);
       double e7       = 0;
       for (int k = 0; k < nd; k++) e7 = std::max(e7, std::fabs((double)((LD)c7[k] - ((LD)g.x0[k] + (LD)idx[k] * (LD)g.dx[k]))));
-      c.check("node-unrotated", "C16:node-geometry:flag_rotate=false:" + cls, e7 <= ctol, e7, ctol, fmt("rank %ld %s", rk, gdet.c_str()));
+      c.check("node-unrotated", "C16:node-geometry:flag_rotate=false", e7 <= ctol, e7, ctol, fmt("rank %ld %s", rk, gdet.c_str()));
     }
 
     // cell corners: getCellCoordinatesByCorner(node, shift) "shift 0: no shift; -1: minus half a cell-width; +1 plus
@@ -209,7 +209,7 @@ static void run_case(Rng& r, Ctx& c)
       for (int k = 0; k < nd; k++) { sh[k] = r.irange(-1, 1); f[k] = (LD)idx[k] + (LD)sh[k] / 2; }
       VectorDouble cc = grid.getCellCoordinatesByCorner((int)rk, VI(sh));
       double ec       = maxdiff(cc, refg::coord(g, f));
-      c.check("cell-corner", "C16:cell-corner:misplaced:" + cls, ec <= ctol, ec, ctol,
+      c.check("cell-corner", "C16:cell-corner:misplaced", ec <= ctol, ec, ctol,
               fmt("rank %ld shift %s %s", rk, vstr(sh).c_str(), gdet.c_str()));
     }
 
@@ -218,10 +218,10 @@ static void run_case(Rng& r, Ctx& c)
     {
       VectorInt ib  = grid.coordinateToIndices(coor, cen != 0);
       std::vector<int> ibv = ib.getVector();
-      c.truth(cen ? "idx-coord-idx-centered" : "idx-coord-idx", fmt("C16:idx-coord-idx:centered=%d:%s", cen, cls.c_str()), ibv == idx,
+      c.truth(cen ? "idx-coord-idx-centered" : "idx-coord-idx", fmt("C16:idx-coord-idx:centered=%d", cen), ibv == idx,
               fmt("indices %s -> %s -> %s %s", vstr(idx).c_str(), vstrd(coor.getVector()).c_str(), vstr(ibv).c_str(), gdet.c_str()));
       int rb = grid.coordinateToRank(coor, cen != 0);
-      c.truth(cen ? "rank-coord-rank-centered" : "rank-coord-rank", fmt("C16:rank-coord-rank:centered=%d:%s", cen, cls.c_str()), rb == rk,
+      c.truth(cen ? "rank-coord-rank-centered" : "rank-coord-rank", fmt("C16:rank-coord-rank:centered=%d", cen), rb == rk,
               fmt("rank %ld -> %s -> %d %s", rk, vstrd(coor.getVector()).c_str(), rb, gdet.c_str()));
     }
   }
@@ -233,7 +233,7 @@ static void run_case(Rng& r, Ctx& c)
     for (int k = 0; k < nd; k++) { ic[k] = r.irange(0, 1); idc[k] = ic[k] ? g.nx[k] - 1 : 0; }
     VectorDouble cc = grid.getCoordinatesByCorner(VI(ic));
     double ec       = maxdiff(cc, refg::coordI(g, idc));
-    c.check("grid-corner", "C16:grid-corner:misplaced:" + cls, ec <= ctol, ec, ctol, fmt("corner %s %s", vstr(ic).c_str(), gdet.c_str()));
+    c.check("grid-corner", "C16:grid-corner:misplaced", ec <= ctol, ec, ctol, fmt("corner %s %s", vstr(ic).c_str(), gdet.c_str()));
   }
 
   // ---------------------------------------------------------------------------------------------------------------
@@ -263,7 +263,7 @@ static void run_case(Rng& r, Ctx& c)
                             (int)centered, vstr(cell).c_str(), gdet.c_str());
       VectorInt ind(nd, -7);
       int rc = grid.coordinateToIndicesInPlace(x, ind, centered);
-      std::string kc = fmt("centered=%d:%s", (int)centered, cls.c_str());
+      std::string kc = fmt("centered=%d", (int)centered);
       if (inside)
       {
         c.truth("point-in-cell", "C16:point-in-cell:wrong-cell:" + kc, rc == 0 && ind.getVector() == cell,
@@ -281,12 +281,12 @@ static void run_case(Rng& r, Ctx& c)
           // Grid::sampleBelongsToCell(coor, rank): "Check if a sample belongs to a Grid Cell ... rank Rank of the Grid
           // cell", the cell being centred on its node ("center Coordinates of the grid node center")
           int rcell = grid.indiceToRank(cell);
-          c.truth("belongs-to-cell", "C16:sampleBelongsToCell:own-cell-rejected:" + cls, grid.sampleBelongsToCell(x, rcell), det);
+          c.truth("belongs-to-cell", "C16:sampleBelongsToCell:own-cell-rejected", grid.sampleBelongsToCell(x, rcell), det);
           std::vector<int> nb = cell;
           int kk = r.irange(0, nd - 1);
           nb[kk] += (nb[kk] + 1 < g.nx[kk]) ? 1 : -1;
           if (nb[kk] >= 0)
-            c.truth("belongs-to-other-cell", "C16:sampleBelongsToCell:neighbour-cell-accepted:" + cls,
+            c.truth("belongs-to-other-cell", "C16:sampleBelongsToCell:neighbour-cell-accepted",
                     !grid.sampleBelongsToCell(x, grid.indiceToRank(nb)), det + " neighbour " + vstr(nb));
         }
       }
@@ -327,10 +327,10 @@ static void run_case(Rng& r, Ctx& c)
         n0 += v[k] * v[k]; n1 += a[k] * a[k]; n2 += a2[k] * a2[k];
       }
       double tol = 32 * EPS * std::sqrt(n0);
-      c.check("rotation-direct-inverse", "C16:rotation:direct-o-inverse:" + cls, e1 <= tol, e1, tol, gdet);
-      c.check("rotation-inverse-direct", "C16:rotation:inverse-o-direct:" + cls, e2 <= tol, e2, tol, gdet);
+      c.check("rotation-direct-inverse", "C16:rotation:direct-o-inverse", e1 <= tol, e1, tol, gdet);
+      c.check("rotation-inverse-direct", "C16:rotation:inverse-o-direct", e2 <= tol, e2, tol, gdet);
       double en = std::max(std::fabs(std::sqrt(n1) - std::sqrt(n0)), std::fabs(std::sqrt(n2) - std::sqrt(n0)));
-      c.check("rotation-isometry", "C16:rotation:length-not-preserved:" + cls, en <= tol, en, tol, gdet);
+      c.check("rotation-isometry", "C16:rotation:length-not-preserved", en <= tol, en, tol, gdet);
     }
   }
 
@@ -338,8 +338,8 @@ static void run_case(Rng& r, Ctx& c)
   // 4. DbGrid: stored / reported coordinates are those of the geometry
   // ---------------------------------------------------------------------------------------------------------------
   std::unique_ptr<DbGrid> db(DbGrid::create(VI(g.nx), VD(g.dx), VD(g.x0), VD(g.angles)));
-  if (!db) { c.truth("dbgrid-create", "C16:dbgrid:create-failed:" + cls, false, gdet); return; }
-  c.truth("dbgrid-create", "C16:dbgrid:wrong-sample-number:" + cls, db->getSampleNumber() == N,
+  if (!db) { c.truth("dbgrid-create", "C16:dbgrid:create-failed", false, gdet); return; }
+  c.truth("dbgrid-create", "C16:dbgrid:wrong-sample-number", db->getSampleNumber() == N,
           fmt("%d samples for %ld nodes %s", db->getSampleNumber(), N, gdet.c_str()));
   if (db->getSampleNumber() != N) return;
   {
@@ -347,7 +347,7 @@ static void run_case(Rng& r, Ctx& c)
     for (int k = 0; k < nd; k++) cols.push_back(db->getColumnByLocator(ELoc::X, k));
     bool colsOk = true;
     for (auto& cc : cols) colsOk = colsOk && (long)cc.size() == N;
-    c.truth("dbgrid-columns", "C16:dbgrid:coordinate-columns-missing:" + cls, colsOk, gdet);
+    c.truth("dbgrid-columns", "C16:dbgrid:coordinate-columns-missing", colsOk, gdet);
     long step = std::max(1L, N / 1500);
     for (long rk = 0; rk < N && colsOk; rk += step)
     {
@@ -362,8 +362,8 @@ static void run_case(Rng& r, Ctx& c)
       }
       db->getCoordinatesPerSampleInPlace((int)rk, perSample);
       double e1 = maxdiff(stored, want), e2 = std::max(maxdiff(reported, want), maxdiff(perSample, want));
-      c.check("dbgrid-stored", "C16:dbgrid:stored-coordinates:" + cls, e1 <= ctol, e1, ctol, fmt("rank %ld %s", rk, gdet.c_str()));
-      c.check("dbgrid-reported", "C16:dbgrid:reported-coordinates:" + cls, e2 <= ctol, e2, ctol, fmt("rank %ld %s", rk, gdet.c_str()));
+      c.check("dbgrid-stored", "C16:dbgrid:stored-coordinates", e1 <= ctol, e1, ctol, fmt("rank %ld %s", rk, gdet.c_str()));
+      c.check("dbgrid-reported", "C16:dbgrid:reported-coordinates", e2 <= ctol, e2, ctol, fmt("rank %ld %s", rk, gdet.c_str()));
     }
   }
 
@@ -382,11 +382,11 @@ static void run_case(Rng& r, Ctx& c)
     VectorDouble x(nd);
     for (int k = 0; k < nd; k++) x[k] = (double)xl[k];
     int rb  = db->coordinateToRank(x, centered);
-    c.truth("dbgrid-point-rank", fmt("C16:dbgrid:coordinateToRank:centered=%d:%s", (int)centered, cls.c_str()),
+    c.truth("dbgrid-point-rank", fmt("C16:dbgrid:coordinateToRank:centered=%d", (int)centered),
             rb == grid.indiceToRank(cell), fmt("cell %s got rank %d %s", vstr(cell).c_str(), rb, gdet.c_str()));
     int rc2 = db->centerCoordinateInPlace(x, centered, true);
     double e = maxdiff(x, refg::coordI(g, cell));
-    c.check("dbgrid-center", fmt("C16:dbgrid:centerCoordinateInPlace:centered=%d:%s", (int)centered, cls.c_str()),
+    c.check("dbgrid-center", fmt("C16:dbgrid:centerCoordinateInPlace:centered=%d", (int)centered),
             rc2 == 0 && e <= ctol, e, ctol, fmt("cell %s rc=%d %s", vstr(cell).c_str(), rc2, gdet.c_str()));
   }
 
@@ -401,8 +401,8 @@ static void run_case(Rng& r, Ctx& c)
   auto checkDerived = [&](const std::string& what, const DbGrid* d, const std::function<LD(int k, int j)>& parentPos,
                           const Alt* alt = nullptr)
   {
-    if (!d) { c.truth("derived-" + what, "C16:derived:" + what + ":null:" + cls, false, gdet); return; }
-    if (d->getNDim() != nd) { c.truth("derived-" + what, "C16:derived:" + what + ":ndim:" + cls, false, gdet); return; }
+    if (!d) { c.truth("derived-" + what, "C16:derived:" + what + ":null", false, gdet); return; }
+    if (d->getNDim() != nd) { c.truth("derived-" + what, "C16:derived:" + what + ":ndim", false, gdet); return; }
     long Nd = d->getSampleNumber();
     if (Nd <= 0) { c.skip("derived-empty"); return; }
     long step = std::max(1L, Nd / 400);
@@ -441,7 +441,7 @@ static void run_case(Rng& r, Ctx& c)
                     [&] { std::string s; for (int k = 0; k < nd; k++) s += fmt("%s%.17Lg", k ? "," : "", want[k]); return s; }().c_str());
       }
     }
-    std::string key = (alt && worstAlt <= tol) ? alt->key : "C16:derived:" + what + ":misplaced:" + cls;
+    std::string key = (alt && worstAlt <= tol) ? alt->key : "C16:derived:" + what + ":misplaced";
     c.check("derived-" + what, key, worst <= tol, worst, tol, wdet + " " + gdet);
   };
   // root-cause models (labels): Grid::multiple / Grid::divider with flagCell scale the half-diagonal of the first cell
@@ -537,12 +537,12 @@ static void run_case(Rng& r, Ctx& c)
         double e = maxdiff(x0o, want);
         bool shape = true;
         for (int k = 0; k < nd; k++) shape = shape && nxo[k] == g.nx[k] + 2 * mode * ns[k] && dxo[k] == g.dx[k];
-        c.truth("derived-dilate-shape", "C16:derived:dilate:wrong-nx-or-dx:" + cls, shape,
+        c.truth("derived-dilate-shape", "C16:derived:dilate:wrong-nx-or-dx", shape,
                 fmt("mode %d nshift %s -> nx %s %s", mode, vstr(ns).c_str(), vstr(nxo.getVector()).c_str(), gdet.c_str()));
         std::vector<LD> f2(nd);
         for (int k = 0; k < nd; k++) f2[k] = -2 * (LD)mode * ns[k];
         bool twice = maxdiff(x0o, refg::coord(g, f2)) <= 4 * ctol;
-        c.check("derived-dilate", twice ? "C16:derived:Grid::dilate:shift-applied-twice" : "C16:derived:dilate:misplaced:" + cls, e <= 4 * ctol, e, 4 * ctol,
+        c.check("derived-dilate", twice ? "C16:derived:Grid::dilate:shift-applied-twice" : "C16:derived:dilate:misplaced", e <= 4 * ctol, e, 4 * ctol,
                 fmt("mode %d nshift %s -> x0 %s, parent node %s is at (%s) %s", mode, vstr(ns).c_str(),
                     vstrd(x0o.getVector()).c_str(), [&] { std::string s = "("; for (int k = 0; k < nd; k++) s += fmt("%s%d", k ? "," : "", -mode * ns[k]); return s + ")"; }().c_str(),
                     [&] { std::string s; for (int k = 0; k < nd; k++) s += fmt("%s%.17Lg", k ? "," : "", want[k]); return s; }().c_str(), gdet.c_str()));
@@ -583,7 +583,7 @@ static void run_case(Rng& r, Ctx& c)
     for (int k = 0; k < nd; k++) pts->addColumns(VD(px[k]), fmt("x%d", k + 1), ELoc::X, k);
     int nc0 = pts->getColumnNumber();
     int err = migrate(db.get(), pts.get(), "val");
-    c.truth("migrate-rc", "C16:migrate:error-return:" + cls, err == 0 && pts->getColumnNumber() == nc0 + 1, gdet);
+    c.truth("migrate-rc", "C16:migrate:error-return", err == 0 && pts->getColumnNumber() == nc0 + 1, gdet);
     if (err == 0 && pts->getColumnNumber() == nc0 + 1)
     {
       VectorDouble got = pts->getColumnByColIdx(nc0);
@@ -598,7 +598,7 @@ static void run_case(Rng& r, Ctx& c)
           pdet = fmt("point %s got %.10g want %.10g %s", vstrd(xx).c_str(), got[p], want[p], gdet.c_str());
         }
         c.truth(FFFF(want[p]) ? "migrate-outside" : "migrate-cell",
-                std::string("C16:migrate:") + (FFFF(want[p]) ? "outside-point-gets-a-value:" : "wrong-cell:") + cls, ok, pdet);
+                std::string("C16:migrate:") + (FFFF(want[p]) ? "outside-point-gets-a-value" : "wrong-cell"), ok, pdet);
       }
     }
   }
